@@ -120,6 +120,13 @@ func cmdVerify(repo, verif, fnRe, obRe string, timeout int, dump, verbose, split
 	bad := 0
 	for _, ob := range obs {
 		status := "ok  "
+		if !ob.ok() && ob.Kind == "rec-progress" {
+			// optional obligation (see recursion.go): only printed with -v
+			if verbose {
+				fmt.Printf("opt  %-8s %-7s %5.2fs %s\n", ob.Result, ob.Solver, ob.TimeS, ob.Name)
+			}
+			continue
+		}
 		if !ob.ok() {
 			status = "FAIL"
 			bad++
